@@ -349,3 +349,34 @@ def rule_scratch(c, prog, R, fns, what="value"):
                     c.violation(R, f"carried|{core.short(fn.path).rsplit('::', 1)[-1]}|{name}", f"{fn.path} appends to `{name}` and reads it once per {what} inside a loop, but the buffer is declared outside that loop and {how}: what is written for the k-th {what} starts with the bytes of the ones before it", core.loc(fills[lid][0][1]), instance=inst)
     if n == 0:
         c.ok(R, "no-carried-scratch-buffers")
+
+
+def rule_base64_whole(c, prog, R, crates=("rbx_xml",)):
+    """binary data is base64-encoded as one piece"""
+    c.rule(R, "every `base64::encode*` of the XML writers encodes a whole value: it is not applied to the pieces of a buffer (a loop or iterator over `chunks` / `windows` / `split_at` of the data) — each piece would end in its own `=` padding unless its length is a multiple of 3, and the concatenation is not the base64 of the value")
+    PIECES = {"chunks", "chunks_exact", "rchunks", "windows", "split_at", "split", "splitn"}
+    n = 0
+    for f in prog.lib_fns():
+        if f.body is None or f.crate not in crates:
+            continue
+        encs = [x for x in core.walk_fn(f) if x.get("k") == "Call" and (core.callee(x) or "").startswith("base64::encode")]
+        if not encs:
+            continue
+        n += len(encs)
+        bad = None
+        for lp in core.walk_fn(f):
+            if lp.get("k") == "DropTemps":
+                continue
+            fl = core.as_for(lp)
+            if fl is not None and any(y.get("k") == "MethodCall" and y["m"] in PIECES and "[u8]" in ((core.strip(y["recv"]).get("ty") or "") + (y["recv"].get("aty") or "")).replace("alloc::vec::Vec<u8>", "[u8]") for y in core.walk(fl[1])):
+                if any(any(z is e for z in core.walk(fl[2])) for e in encs):
+                    bad = lp
+            if lp.get("k") == "MethodCall" and lp["m"] in ("map", "for_each", "flat_map") and any(y.get("k") == "MethodCall" and y["m"] in PIECES for y in core.walk(lp["recv"])):
+                if any(any(z is e for z in core.walk(a)) for a in lp["args"] for e in encs):
+                    bad = lp
+        inst = f"base64-encode:{core.short(f.path)}"
+        if bad is not None:
+            c.violation(R, f"piecewise-encode|{core.short(f.path)}", f"{f.path} base64-encodes a value piece by piece: every piece whose length is not a multiple of 3 ends in `=` padding, so the text written is not the base64 of the value (rbx_xml's own reader rejects it at the first `=`; other readers decode garbage)", core.loc(bad), instance=inst)
+        else:
+            c.ok(R, inst)
+    c.floor(R, n, 1, "base64::encode sites in the XML writers")
